@@ -23,6 +23,7 @@ type specEnv struct {
 	pkg     *types.Package
 	results []Val
 	sig     *types.Signature
+	local   func(name string) (Val, bool) // local variables by source name (loop invariants, `debugnames`)
 }
 
 func (e *specEnv) with(st *State, extra map[string]Val) *specEnv {
@@ -181,6 +182,11 @@ func (x *Exec) specIdent(n *ast.Ident, env *specEnv) Val {
 	}
 	if v, ok := env.names[n.Name]; ok {
 		return v
+	}
+	if env.local != nil {
+		if v, ok := env.local(n.Name); ok {
+			return v
+		}
 	}
 	// named results
 	if env.sig != nil && env.results != nil {
@@ -473,6 +479,22 @@ func (x *Exec) specCall(n *ast.CallExpr, env *specEnv, reach Term) Val {
 		case "mi":
 			v := x.evalSpec(n.Args[0], env, reach)
 			return Val{MI: true, L: []Term{x.toMI(v)}}
+		case "allocated":
+			// allocated(s): the slice is nil or its backing store was handed out by
+			// make / append / an allocating library function before now
+			a := x.evalSpec(n.Args[0], env, reach)
+			if len(a.L) != 3 {
+				specFail("allocated(): argument must be a slice")
+			}
+			return boolV(Or(Eq(a.L[0], BVLit(0, 64)), Op("bvult", SBool, a.L[0], env.st.sctr)))
+		case "sameStore":
+			// sameStore(s, t): the two slices share their backing store
+			a := x.evalSpec(n.Args[0], env, reach)
+			b := x.evalSpec(n.Args[1], env, reach)
+			if len(a.L) != 3 || len(b.L) != 3 {
+				specFail("sameStore(): arguments must be slices")
+			}
+			return boolV(Eq(a.L[0], b.L[0]))
 		case "holds":
 			// holds(&m): the current call chain holds mutex m (ghost lock-set)
 			v := x.scalarize(x.evalSpec(n.Args[0], env, reach))
